@@ -129,7 +129,7 @@ func fieldNode(ti tagInfo, f reflect.StructField, t reflect.Type) ref.Node {
 		n := fieldNode(tagInfo{name: ti.name, opts: without(ti.opts, "optional")}, f, t.Elem())
 		n.Rep = "opt"
 		return n
-	case t.Kind() == reflect.Slice && t != byteSliceType && !(t.Elem().Kind() == reflect.Uint8):
+	case t.Kind() == reflect.Slice && ((t != byteSliceType && t.Elem().Kind() != reflect.Uint8) || ti.has("list")):
 		if ti.has("list") {
 			n := ref.Node{Name: ti.name, Rep: "req", Kind: "list"}
 			if optional {
